@@ -33,12 +33,29 @@ def rows(name, lst, state, typ, unit):
     return [{"Task": name, "Start": (INIT + a * unit).strftime(FMT), "Finish": (INIT + (a + ln) * unit).strftime(FMT), "State": state, "Type": typ} for a, ln in lst]
 
 
+def _long_logs(alpha):
+    """long logs (17, 40 and 64 entries): every word of <= 4 states repeated periodically, and runs of growing length"""
+    for L in (17, 40, 64):
+        for p in range(1, 5):
+            for word in itertools.product(alpha, repeat=p):
+                if p > 1 and len(set(word)) == 1:
+                    continue
+                yield [word[i % p] for i in range(L)]
+        seq, k, run = [], 0, 1
+        while len(seq) < L:
+            seq += [alpha[k % len(alpha)]] * run
+            k += 1
+            run += 1
+        yield seq[:L]
+
+
 def work_rle(chunk):
     col = engines.Collector()
     for kind, length in chunk:
         alpha = {"task": TS, "component": CS, "worker": WS, "facility": FS}[kind]
-        for seq in itertools.product(alpha, repeat=length):
+        for seq in (_long_logs(alpha) if length == "long" else itertools.product(alpha, repeat=length)):
             seq = list(seq)
+            length = len(seq)
             for margin in (0, 0.5, 1.0):
                 col.evaluations += 1
                 col.checks["c19.rle." + kind] += 1
@@ -285,6 +302,7 @@ def run(tier, seed):
     L_t = 6 if tier == "quick" else 8
     L_r = 7 if tier == "quick" else 9
     items = [("task", n) for n in range(0, L_t + 1)] + [("component", n) for n in range(0, L_t + 1)] + [("worker", n) for n in range(0, L_r + 1)] + [("facility", n) for n in range(0, L_r + 1)]
+    items += [(k, "long") for k in ("task", "component", "worker", "facility")]
     col = engines.fanout(items, work_rle, seed=seed, chunks_per_proc=4)
     ex_items = [(k, n, L) for k in ("task", "component", "worker", "facility") for n, L in (((1, 3), (2, 2), (3, 1)) if tier == "quick" else ((1, 3), (2, 3), (3, 2)))]
     col.merge(engines.fanout(ex_items, work_extract, seed=seed, chunks_per_proc=1))
@@ -301,7 +319,7 @@ def run(tier, seed):
     col.merge(engines.fanout(integ, work_integration, seed=seed))
     meta = {
         "level": "exploration",
-        "rule": "every state sequence of length <= %d over {NONE,READY,WORKING,FINISHED} for tasks and components and of length <= %d over {FREE,WORKING,ABSENCE} for workers and facilities x finish margins "
+        "rule": "every state sequence of length <= %d (plus periodic and growing-run logs of 17, 40 and 64 entries) over {NONE,READY,WORKING,FINISHED} for tasks and components and of length <= %d over {FREE,WORKING,ABSENCE} for workers and facilities x finish margins "
         "{0,0.5,1}: get_time_list_for_gannt_chart must return exactly the maximal runs (start, length-1+margin); chart rows for unit 1 minute / 1 day (lengths <= 5) must map index k to init+k*unit; every "
         "multiset of <= 3 logs (all sequences up to a length bound; objects with distinct names and all sharing one name; log entries as enum members, plain ints and members of the sibling enum) x every time list within {0..3} x every state: extract_* of workflow/product/team/workplace must return exactly the matching objects; "
         "set_last_datetime for time 1..7 x units x flags x dates, and on real results (simulate with absence lists incl. beyond-the-end and duplicated steps, with and without remove_absence_time_list); "
@@ -324,5 +342,5 @@ def replay(v):
     elif "set_last_datetime" in v["sig"]:
         col = work_dates([0])
     else:
-        col = work_rle([(kind, len(d["log"]))])
+        col = work_rle([(kind, len(d["log"]) if len(d["log"]) <= 9 else "long")])
     return [x for x in col.violations if x["sig"] == v["sig"]]
